@@ -98,7 +98,7 @@ def handleUp (l : Line) : IO Unit := do
       -- http.Error and return; nothing is touched
       let status := if pre == "method" then "405" else "500"
       IO.println s!"obs {l.id} step={step} status={status} err=refused id=- fids=- trace=- nup={s.db.uploads.length} own=0 search={showSearch s.db} list={showList s.db} l2={showList2 s.db} files={showFiles s.fs withData}"
-      IO.println s!"spec {l.id} step={step} ok=0 vis=0,0,0 lab=0,0,0 listed=0 lim=1 inprog=0 earlier=1 idsok=1 stored=-"
+      IO.println s!"spec {l.id} step={step} ok=0 vis=0,0,0 lab=0,0,0 own=0,0 listed=0 lim=1 inprog=0 earlier=1 idsok=1 stored=-"
       step := step + 1
       continue
     let o := processUpload env req s
@@ -118,10 +118,10 @@ def handleUp (l : Line) : IO Unit := do
     if cutFlag != 0 && modelOk && !Spec.UploadAtomic.structuralFault req then kf := kf ++ ["N20c"]
     let kfs := if kf.isEmpty then "" else " kf=" ++ "+".intercalate kf
     if fail then
-      IO.println s!"spec {l.id} step={step} ok=0 vis=0,0,0 lab=0,0,0 listed=0 lim=1 inprog=0 earlier=1 idsok=1 stored=-{kfs}"
+      IO.println s!"spec {l.id} step={step} ok=0 vis=0,0,0 lab=0,0,0 own=0,0 listed=0 lim=1 inprog=0 earlier=1 idsok=1 stored=-{kfs}"
     else
       let n := Spec.UploadAtomic.visible req
-      IO.println s!"spec {l.id} step={step} ok=1 vis={n},{n},{n} lab={n},{n},{n} listed=1 lim=1 inprog=0 earlier=1 idsok=1 stored={specFiles (Spec.UploadAtomic.storedFiles env req.parts 0) withData}{kfs}"
+      IO.println s!"spec {l.id} step={step} ok=1 vis={n},{n},{n} lab={n},{n},{n} own={n},{n} listed=1 lim=1 inprog=0 earlier=1 idsok=1 stored={specFiles (Spec.UploadAtomic.storedFiles env req.parts 0) withData}{kfs}"
     step := step + 1
 
 /-- record j of the db-level scenarios (harness idsRecord) -/
